@@ -76,12 +76,33 @@ def wl_cbf(ctx, rng, case):
             # changed: what THIS filter reports must not move (checked by the probes and the history-independence oracle below)
             g = P.CountingBloomFilter(est, rate, **bl.kw_hash(hf))
             how = rng.choice(["union(empty)", "empty.union", "union(fed)", "fed.union", "intersection(self)", "reload"])
+            gout = Counter()
             if "fed" in how:
-                g.add(rng.choice(keys), rng.randint(1, 3))
+                kg, ng = rng.choice(keys), rng.randint(1, 3)
+                g.add(kg, ng)
+                gout[kg] += ng
             d = {"union(empty)": lambda: f.union(g), "union(fed)": lambda: f.union(g), "empty.union": lambda: g.union(f), "fed.union": lambda: g.union(f),
                  "intersection(self)": lambda: f.intersection(f), "reload": lambda: P.CountingBloomFilter.frombytes(bytes(f), **bl.kw_hash(hf))}[how]()
             case.op("derive-and-change", how)
             if d is None:
+                continue
+            if how != "intersection(self)" and d.elements_added >= 0 and rng.random() < 0.6:
+                # the derived filter is a counting filter in its own right (its element count may be an ESTIMATE far below the additions it
+                # holds): single removals, one after the other, and after each of them no key is reported below its outstanding additions
+                dout = out + gout
+                for _ in range(rng.randint(3, 14)):
+                    live = [kx for kx in keys if dout[kx] > 0 and len(set(h % d.number_bits for h in d.hashes(kx))) == d.number_hashes]
+                    if not live:
+                        break
+                    kx = rng.choice(live)
+                    d.remove(kx, 1)
+                    dout[kx] -= 1
+                    for ky in keys:
+                        ctx.counters["oracle_evaluations"] += 1
+                        if d.check(ky) < dout[ky]:
+                            ctx.fail(f"a counting filter derived by {how} reports a key below its outstanding additions after a single removal", key=ky, reported=d.check(ky),
+                                     outstanding=dout[ky], element_count=d.elements_added)
+                ctx.count("derived_counting_filters_counted_down")
                 continue
             for k2 in rng.sample(keys, min(len(keys), 3)):
                 if out[k2] > 0 and rng.random() < 0.6:
